@@ -20,7 +20,7 @@ META["C17"] = {
     "(.md -> .html), a directory with a titled index.md is a sub-tree, pages listed in ordered_subpage first and the rest "
     "alphabetically, hidden (.x) and backup (x~) entries ignored, other files recorded for copying next to their page, a "
     "page without title reported and skipped without losing its siblings, the hierarchy of every page is its chain of parents.",
-    "outside": ["copying of files and copy_subdir directories (shutil), written HTML, page navigation markup",
+    "outside": ["written HTML, page navigation markup",
                 "|page| |media| |url| aliases and relative links (python-markdown tree processors, pathlib.resolve)",
                 "directory shapes other than the skeleton (two levels of sub-directories, 11 entries)"],
     "assumptions": ["os.listdir order is arbitrary in reality; the code sorts it, the stub returns it reversed-sorted to make "
@@ -305,3 +305,15 @@ def page_tree(ctx):
         else:
             ctx.inconclusive.append(f"vacuity: '{lab}' never reached")
     ctx.sample({"paths": E.paths})
+
+
+
+# ---------------------------------------------------------------------------------------
+# O2: files and copy_subdir directories are copied next to their pages (file-system stub shared with C19)
+# ---------------------------------------------------------------------------------------
+@obligation("C17", "O2.files-copied-next-to-pages", engine="SX+file-system stub", timeout=900)
+def copies(ctx):
+    """PagetreePage.writeout on the in-memory file system: every existing copy_subdir directory and every recorded file of a static
+    page is copied next to the page (top level and sub-directory); entries that do not exist are reported and do not stop the others"""
+    from fv.props import c19
+    c19.writeout_obligation(ctx, "copies")
